@@ -108,6 +108,7 @@ class AllocatorAwarePointer
                 if (get_allocator() != other.get_allocator())
                 {
                     deallocate();
+                    get() = nullptr;
                     propagate_on_container_copy_assignment(other);
                     size() = other.size();
                     get() = allocate();
@@ -117,9 +118,10 @@ class AllocatorAwarePointer
             propagate_on_container_copy_assignment(other);
             if (size() < other.size() || !get())
             {
+                const auto new_ptr = AllocatorTraits::allocate(get_allocator(), other.size());
                 deallocate();
+                get() = new_ptr;
                 size() = other.size();
-                get() = allocate();
             }
         }
         return *this;
